@@ -356,7 +356,10 @@ impl PrettyPrinter {
         self.column_order.extend(new_columns);
         // a row without fields is shown as its line, wherever it stands in the stream
         if record.data.is_empty() {
-            return record.raw.trim_end().to_string();
+            return record
+                .raw
+                .trim_end_matches(|c| c == '\n' || c == '\r')
+                .to_string();
         }
 
         let no_padding = if self.overflows_term() {
